@@ -307,8 +307,21 @@ pred validV1(b map[int]int, n int, p int) :=
     && p + 28 + ksV1(b, p) + vsV1(b, p) <= n
     && be32(b, p + 24) == crcOf(range(b, p + 28, ksV1(b, p) + vsV1(b, p)))
 
+pred absV1(f int) :=
+    (forall k :: 0 <= k && k < recN(f) ==>
+        validV1(gBytes[f], gLen[f], recPos(f, k))
+        && recPos(f, k + 1) == recPos(f, k) + 28 + ksV1(gBytes[f], recPos(f, k)) + vsV1(gBytes[f], recPos(f, k))
+        && recOffset(f, k) == s64(be64(gBytes[f], recPos(f, k)))
+        && recMicro(f, k) == s64(be64(gBytes[f], recPos(f, k) + 8))
+        && recKey(f, k) == range(gBytes[f], recPos(f, k) + 28, ksV1(gBytes[f], recPos(f, k)))
+        && recValue(f, k) == range(gBytes[f], recPos(f, k) + 28 + ksV1(gBytes[f], recPos(f, k)), vsV1(gBytes[f], recPos(f, k))))
+    && !validV1(gBytes[f], gLen[f], recPos(f, recN(f)))
+    && recPos(f, recN(f)) <= gLen[f]
+    && (tailClean(f) <==> recPos(f, recN(f)) == gLen[f])
+
 func (*Reader).readV1
     flags overflow
+    implements Reader.reader when r.v == V1 && rdLink(r) && absV1(r.gfile) && wfFile(r.gfile)
     // machine bound: file sizes stay below 2^62 (positions are int64)
     requires[size] rdL(r) <= 4611686018427387904
     requires position >= 0 && isBytes(rdB(r)) && rdL(r) >= 0 && (r.ra != nil || r.r != nil)
